@@ -1556,9 +1556,23 @@ impl Exec {
                 let mut infos = Vec::new();
                 match sh.client() {
                     Some(c) if !c.is_dead() && !sh.wedged.load(Ordering::SeqCst) => {
-                        answered &= c.call("listtowers", json!({}), Duration::from_millis(2000)).is_ok();
+                        // an answer may take long on a busy machine: unless a panic was reported (then no answer is the
+                        // expected outcome) a call that was not answered in 2 s is made once more, with 6 s
+                        let patient = |m: &str, p: Value| -> Result<Value, ()> {
+                            match c.call(m, p.clone(), Duration::from_millis(2000)) {
+                                Ok(v) => Ok(v),
+                                Err(_) => {
+                                    if c.is_dead() || !c.panics.lock().unwrap().is_empty() {
+                                        Err(())
+                                    } else {
+                                        c.call(m, p, Duration::from_millis(6000)).map_err(|_| ())
+                                    }
+                                }
+                            }
+                        };
+                        answered &= patient("listtowers", json!({})).is_ok();
                         for tw in &sh.towers {
-                            match c.call("gettowerinfo", json!([tw.id.to_string()]), Duration::from_millis(2000)) {
+                            match patient("gettowerinfo", json!([tw.id.to_string()])) {
                                 Ok(v) => {
                                     let names = sh.names.lock().unwrap();
                                     let r = v.get("result");
